@@ -13,6 +13,14 @@ Inductive partial : call -> fs -> fs -> Prop :=
 (* the append was interrupted in its k-th call (k = length tr1 + 1) *)
 Definition crash_at (tr1 : list call) (c : call) (s s' : fs) : Prop := partial c (run_trace tr1 s) s'.
 
+(* ---------- the most general damage model ----------
+   A crash (power loss with unflushed buffers, torn or reordered writes, a failing call with any
+   partial effect) may leave EVERY file named by a call issued so far in ANY state - or missing -
+   but changes no file that none of those calls names.                                          *)
+Definition damaged_by (issued : list call) (s s' : fs) : Prop :=
+  forall q, (forall x, In x issued -> affects x q = false) -> lookup q s' = lookup q s.
+
+
 (* ---- the trace before / from the first write-open of _metadata ------------------------- *)
 Fixpoint split_md (tr : list call) : list call * list call :=
   match tr with
